@@ -81,6 +81,7 @@ def run_workers(prop, tier, seed, nshards, repo, timeout, outdir, replay=None, e
             continue
         env = worker_env(repo)
         env["PYTHONHASHSEED"] = hash_seed(seed, sh)
+        env["VP_DEADLINE_S"] = str(max(30, int(timeout) - 45))   # the shard reports what it has a little before the watchdog
         # CONFIGURATION dimension: one shard in four sees an OpenSSL that does not offer RIPEMD-160 to hashlib
         if (sh + seed) % 4 == 2:
             env["VP_NO_OSSL_RIPEMD"] = "1"
